@@ -776,7 +776,11 @@ ExitStatus Builder::Build(string* err) {
     if (pending_commands) {
       // Tell command runner that if jobserver tokens become available while
       // waiting, it should notify us - but only if we have more work to do.
-      const bool watch_jobserver = plan_.work_ready();
+      // Once the failure budget is used up no command will be started any
+      // more, so a token could not be used: watching the jobserver then only
+      // makes the wait return at once for as long as the pool is non-empty,
+      // and keeps the exit of a console command from ever being noticed.
+      const bool watch_jobserver = plan_.work_ready() && failures_allowed > 0;
       BuildResult result =
           command_runner_->WaitForCommandOrJobserverToken(watch_jobserver);
 
